@@ -35,6 +35,66 @@ class CallGraph:
                 self._prop_names.setdefault(f.name, []).append(f)
         for f in list(prog.functions.values()):
             self._build(f)
+        self.param_order = {}   # id(call node) -> positional parameter names of the callee(s) (self dropped)
+        self._normalise_calls()
+
+    # ------------------------------------------------------------------
+    def _normalise_calls(self):
+        """One written form for argument passing: where every candidate callee of a call agrees on the positional order of its
+        parameters, leading keyword arguments are moved into position (`f(a, x=1)` -> `f(a, 1)` when x is the 2nd parameter).
+        Rules then read an argument with `arg(call, name)`, which sees both forms."""
+        by_call = {}
+        for f, lst in self.edges.items():
+            for kind, callee, node in lst:
+                if kind in ("precise", "name", "weak") and isinstance(node, ast.Call):
+                    by_call.setdefault(id(node), (node, []))[1].append((kind, callee))
+        for node, cands in by_call.values():
+            if any(isinstance(a, ast.Starred) for a in node.args) or any(k.arg is None for k in node.keywords):
+                continue
+            prec = [c for (k, c) in cands if k == "precise"]
+            use = prec or [c for (k, c) in cands]
+            if not use or len(use) > 4:
+                continue
+            orders = set()
+            for t in use:
+                a = t.node.args
+                if a.vararg is not None or a.posonlyargs:
+                    orders.add(None)
+                    continue
+                ps = [x.arg for x in a.args]
+                if t.cls is not None and not t.is_static:
+                    if isinstance(node.func, ast.Attribute) or t.name in ("__init__", "__new__"):
+                        ps = ps[1:]
+                    else:
+                        orders.add(None)
+                        continue
+                orders.add(tuple(ps))
+            if len(orders) != 1 or None in orders:
+                continue
+            ps = list(orders.pop())
+            self.param_order[id(node)] = ps
+            kws = {k.arg: k.value for k in node.keywords}
+            take = []
+            for pname in ps[len(node.args):]:
+                if pname in kws:
+                    take.append(pname)
+                else:
+                    break
+            if take:
+                node.args = list(node.args) + [kws[pn] for pn in take]
+                node.keywords = [k for k in node.keywords if k.arg not in take]
+
+    def arg(self, call, pname, default=None):
+        """The expression bound to parameter `pname` at this call (keyword or position), or default."""
+        for k in call.keywords:
+            if k.arg == pname:
+                return k.value
+        ps = self.param_order.get(id(call))
+        if ps and pname in ps:
+            i = ps.index(pname)
+            if i < len(call.args) and not any(isinstance(a, ast.Starred) for a in call.args[:i + 1]):
+                return call.args[i]
+        return default
 
     # ------------------------------------------------------------------
     def local_types(self, f):
